@@ -24,6 +24,28 @@
 //   exprT                Matrix R = M*2.0 + N.T()
 //   assign               S = M*2.0 + N     (S of the same type): raw elements and dense view
 //   assignT              S = M*2.0 + N.T()
+//   compositions: X = M.submatrix_on_diagonal(a,b) (a view with offset() > pack_offset(dimension())), then
+//   sinfo a b            offset=<X.offset()> size=<X data_range length> contiguous=<X.is_contiguous()>
+//   sdiag a b k          elements of X.diag_vector(k)            (`oob` if anything throws index_out_of_bounds)
+//   sTdiag a b k         elements of X.T().diag_vector(k)
+//   swrdiag a b k t      X.diag_vector(k)(t) = 1000: changed (i,j) of the dense view of M and changed raw elements of M
+//   swr a b p|a i j      X(i,j) = 1000 (passive / active lvalue): changes of M as for wr
+//   sT a b               Matrix(X.T()), const reads of X.T(), Matrix(X.T().T())
+//   ssub a b a2 b2       Y = X.submatrix_on_diagonal(a2,b2): const reads of Y, Matrix(Y), Matrix(Y.T())
+//   sassign a b          S.submatrix_on_diagonal(a,b) = M.submatrix_on_diagonal(a,b)*2.0 + N.submatrix_on_diagonal(a,b).T()
+//                        (S of the same type, every raw element -1 before): raw elements and dense view of S
+//   self-referential statements (the right-hand side reads the storage of the target).  Result:
+//     alias=<rhs.is_aliased(target.data_range)> raw=<raw elements of M> view=<dense view of M> dense=<D afterwards>
+//   where D = Matrix(M) and the same statement was executed on D; `oob` / `mismatch` if the library throws
+//   index_out_of_bounds / size_mismatch.
+//   selfsub a b c d f    M.submatrix_on_diagonal(a,b) = F(M.submatrix_on_diagonal(c,d)) with F(X) =
+//                        k2: 2.0*X   cp: X   sum: 2.0*X + X   T: X.T()   mixT: 2.0*X + X.T()
+//                        dense: D(range(a,b),range(a,b)) = F(D(range(c,d),range(c,d)))
+//   selfT                M = M.T()                 dense: D = D.T()
+//   selfexpr             M = 2.0*M + M             dense: D = 2.0*D + D
+//   selfdiag k k2 f      M.diag_vector(k) = F(M.diag_vector(k2)) with F(w) =
+//                        k2: 2.0*w   cp: w   sum: 2.0*w + w   rev: 2.0*w(stride(len-1,0,-1))
+//                        dense: D.diag_vector(k) = F(D.diag_vector(k2))
 //   dmat s               (BandEngine_ROW_MAJOR 0 0 only) D = v.diag_matrix() for the n-element view v of stride s of a
 //                        vector holding 1,2,3,...: offset(), const reads of D, Matrix(D), Matrix(D.T())
 #include "spy.h"
@@ -217,6 +239,163 @@ template <class E> struct Ops {
         os << "get=" << list(view(X)) << " conv=" << mat(D) << " convT=" << mat(Dt);
         return os.str();
       } catch (const index_out_of_bounds&) { return "oob"; }
+    }
+    if (op == "sinfo" || op == "sdiag" || op == "sTdiag" || op == "swrdiag" || op == "swr" || op == "sT" || op == "ssub" ||
+        op == "sassign") {
+      if (na < 2) return "bad-op";
+      Index a = atoi(w[5].c_str()), b = atoi(w[6].c_str());
+      try {
+        if (op == "swr" && na == 5 && w[7] == "a") {
+          Index i = atoi(w[8].c_str()), j = atoi(w[9].c_str());
+          ASM A(n); fill_raw(A, 1, 1);
+          SM P(A.data(), n);
+          ASM XA = A.submatrix_on_diagonal(a, b);
+          if (i < 0 || j < 0 || i >= XA.dimension() || j >= XA.dimension()) return "bad-op";
+          std::vector<double> v0 = view(P), r0 = raw(P);
+          XA(i, j) = 1000.0;
+          return changes(v0, view(P), n, r0, raw(P));
+        }
+        SM X = M.submatrix_on_diagonal(a, b);
+        Index m = X.dimension();
+        if (op == "sinfo" && na == 2) {
+          os << "offset=" << X.offset() << " size=" << raw_size(X) << " contiguous=" << (X.is_contiguous() ? 1 : 0);
+          return os.str();
+        }
+        if ((op == "sdiag" || op == "sTdiag") && na == 3) {
+          Index k = atoi(w[7].c_str());
+          if (k <= -m || k >= m) return "bad-op";
+          std::vector<double> v;
+          if (op == "sdiag") { Vector d = X.diag_vector(k); for (Index t = 0; t < d.size(); ++t) v.push_back(d(t)); }
+          else { TSM Xt = X.T(); Vector d = Xt.diag_vector(k); for (Index t = 0; t < d.size(); ++t) v.push_back(d(t)); }
+          return list(v);
+        }
+        if (op == "swrdiag" && na == 4) {
+          Index k = atoi(w[7].c_str()), t = atoi(w[8].c_str());
+          Index len = m - (k < 0 ? -k : k);
+          if (k <= -m || k >= m || t < 0 || t >= len) return "bad-op";
+          std::vector<double> v0 = view(M), r0 = raw(M);
+          Vector d = X.diag_vector(k);
+          d(t) = 1000.0;
+          return changes(v0, view(M), n, r0, raw(M));
+        }
+        if (op == "swr" && na == 5 && w[7] == "p") {
+          Index i = atoi(w[8].c_str()), j = atoi(w[9].c_str());
+          if (i < 0 || j < 0 || i >= m || j >= m) return "bad-op";
+          if (!LV) return "unsupported";
+          std::vector<double> v0 = view(M), r0 = raw(M);
+          if (!PassiveLv<SM, LV>::write(X, i, j, 1000.0)) return "oob";
+          return changes(v0, view(M), n, r0, raw(M));
+        }
+        if (op == "sT" && na == 2) {
+          Matrix D(X.T());
+          const TSM Tm = X.T();
+          Matrix D2(X.T().T());
+          os << "conv=" << mat(D) << " get=" << list(view(Tm)) << " convTT=" << mat(D2);
+          return os.str();
+        }
+        if (op == "ssub" && na == 4) {
+          Index a2 = atoi(w[7].c_str()), b2 = atoi(w[8].c_str());
+          SM Y0 = X.submatrix_on_diagonal(a2, b2);
+          const SM Y(Y0);
+          Matrix D(Y);
+          Matrix Dt(Y0.T());
+          os << "get=" << list(view(Y)) << " conv=" << mat(D) << " convT=" << mat(Dt);
+          return os.str();
+        }
+        if (op == "sassign" && na == 2) {
+          SM N2(n); fill_raw(N2, 1001, 1);
+          SM S(n); fill_raw(S, -1, 0);
+          S.submatrix_on_diagonal(a, b) = M.submatrix_on_diagonal(a, b) * 2.0 + N2.submatrix_on_diagonal(a, b).T();
+          os << "raw=" << list(raw(S)) << " view=" << list(view(S));
+          return os.str();
+        }
+        return "bad-op";
+      }
+      catch (const index_out_of_bounds&) { return "oob"; }
+    }
+    if (op == "selfsub" && na == 5) {
+      Index a = atoi(w[5].c_str()), b = atoi(w[6].c_str()), c = atoi(w[7].c_str()), d = atoi(w[8].c_str());
+      const std::string& f = w[9];
+      if (f != "k2" && f != "cp" && f != "sum" && f != "T" && f != "mixT") return "bad-op";
+      try {
+        SM X = M.submatrix_on_diagonal(a, b);
+        SM Y = M.submatrix_on_diagonal(c, d);
+        Matrix D(M);
+        const Real *pb, *pe;
+        X.data_range(pb, pe);
+        int al;
+        if (f == "k2") {
+          al = (2.0 * Y).is_aliased(pb, pe);
+          M.submatrix_on_diagonal(a, b) = 2.0 * M.submatrix_on_diagonal(c, d);
+          D(range(a, b), range(a, b)) = 2.0 * D(range(c, d), range(c, d));
+        } else if (f == "cp") {
+          al = Y.is_aliased(pb, pe);
+          M.submatrix_on_diagonal(a, b) = M.submatrix_on_diagonal(c, d);
+          D(range(a, b), range(a, b)) = D(range(c, d), range(c, d));
+        } else if (f == "sum") {
+          al = (2.0 * Y + Y).is_aliased(pb, pe);
+          M.submatrix_on_diagonal(a, b) = 2.0 * M.submatrix_on_diagonal(c, d) + M.submatrix_on_diagonal(c, d);
+          D(range(a, b), range(a, b)) = 2.0 * D(range(c, d), range(c, d)) + D(range(c, d), range(c, d));
+        } else if (f == "T") {
+          al = Y.T().is_aliased(pb, pe);
+          M.submatrix_on_diagonal(a, b) = M.submatrix_on_diagonal(c, d).T();
+          D(range(a, b), range(a, b)) = D(range(c, d), range(c, d)).T();
+        } else {
+          al = (2.0 * Y + Y.T()).is_aliased(pb, pe);
+          M.submatrix_on_diagonal(a, b) = 2.0 * M.submatrix_on_diagonal(c, d) + M.submatrix_on_diagonal(c, d).T();
+          D(range(a, b), range(a, b)) = 2.0 * D(range(c, d), range(c, d)) + D(range(c, d), range(c, d)).T();
+        }
+        os << "alias=" << al << " raw=" << list(raw(M)) << " view=" << list(view(M)) << " dense=" << mat(D);
+        return os.str();
+      }
+      catch (const index_out_of_bounds&) { return "oob"; }
+      catch (const size_mismatch&) { return "mismatch"; }
+    }
+    if ((op == "selfT" || op == "selfexpr") && na == 0) {
+      Matrix D(M);
+      const Real *pb, *pe;
+      M.data_range(pb, pe);
+      int al;
+      if (op == "selfT") { al = M.T().is_aliased(pb, pe); M = M.T(); D = D.T(); }
+      else { al = (2.0 * M + M).is_aliased(pb, pe); M = 2.0 * M + M; D = 2.0 * D + D; }
+      os << "alias=" << al << " raw=" << list(raw(M)) << " view=" << list(view(M)) << " dense=" << mat(D);
+      return os.str();
+    }
+    if (op == "selfdiag" && na == 3) {
+      Index k = atoi(w[5].c_str()), k2 = atoi(w[6].c_str());
+      const std::string& f = w[7];
+      if (k <= -n || k >= n || k2 <= -n || k2 >= n) return "bad-op";
+      if (f != "k2" && f != "cp" && f != "sum" && f != "rev") return "bad-op";
+      try {
+        Vector v = M.diag_vector(k);
+        Vector u = M.diag_vector(k2);
+        Matrix D(M);
+        const Real *pb, *pe;
+        v.data_range(pb, pe);
+        Index len = u.size();
+        int al;
+        if (f == "k2") {
+          al = (2.0 * u).is_aliased(pb, pe);
+          M.diag_vector(k) = 2.0 * M.diag_vector(k2);
+          D.diag_vector(k) = 2.0 * D.diag_vector(k2);
+        } else if (f == "cp") {
+          al = u.is_aliased(pb, pe);
+          M.diag_vector(k) = M.diag_vector(k2);
+          D.diag_vector(k) = D.diag_vector(k2);
+        } else if (f == "sum") {
+          al = (2.0 * u + u).is_aliased(pb, pe);
+          M.diag_vector(k) = 2.0 * M.diag_vector(k2) + M.diag_vector(k2);
+          D.diag_vector(k) = 2.0 * D.diag_vector(k2) + D.diag_vector(k2);
+        } else {
+          al = (2.0 * u(stride(len - 1, 0, -1))).is_aliased(pb, pe);
+          M.diag_vector(k) = 2.0 * M.diag_vector(k2)(stride(len - 1, 0, -1));
+          D.diag_vector(k) = 2.0 * D.diag_vector(k2)(stride(len - 1, 0, -1));
+        }
+        os << "alias=" << al << " raw=" << list(raw(M)) << " view=" << list(view(M)) << " dense=" << mat(D);
+        return os.str();
+      }
+      catch (const index_out_of_bounds&) { return "oob"; }
+      catch (const size_mismatch&) { return "mismatch"; }
     }
     SM N(n); fill_raw(N, 1001, 1);
     if (op == "expr" && na == 0) { Matrix R; R = M * 2.0 + N; return mat(R); }
